@@ -58,3 +58,31 @@ for file, cls in ((FC, "Quotient"), (FD, "Complement")):
              raises=[("NotImplementedError", "exists(lambda j: 0 <= j and j < len(self.extra_parameters) and "
                                              "len(self.extra_parameters[j]) > 0)")],
              notes="refuses (NotImplementedError) exactly when some child has extra parameters")
+
+# ---- Rule.get_equation: which functions are handed to the constructor (left: the rule's class; right: its children, in order)
+from . import rule as _rule_contracts  # noqa: E402,F401
+FRU = "comb_spec_searcher/strategies/rule.py"
+FCB = "comb_spec_searcher/strategies/constructor/base.py"
+provider("genf", args=[Opaque("CombClass")], arg_names=["c"], returns=Expr)
+
+
+def _genf_of(ex, st, f, c):
+    return Val(Expr, z3.Function("prov_genf", z3.IntSort(), c.z.sort(), Expr.sort())(f.z, c.z))
+
+
+spec_fn("genf_of", _genf_of)
+contract(FCB, "ConstructorAny.get_equation", source="Constructor.get_equation", props=["C20"], verify=False,
+         trusted_reason="abstract method: each constructor's own get_equation is verified above (DisjointUnion, CartesianProduct, "
+                        "Quotient, Complement)",
+         params={"self": Obj("ConstructorAny"), "lhs_func": Expr, "rhs_funcs": Seq(Expr)}, returns=Expr,
+         may_raise=["NotImplementedError"], modifies=[])
+contract(FRU, "Rule.get_equation", props=["C20"], aliases=AL,
+         params={"self": Obj("Rule"), "get_function": Fun("genf")}, returns=Expr,
+         may_raise=["NotImplementedError", "StrategyDoesNotApply"],
+         call_requires={"ConstructorAny.get_equation": [
+             "same(self, ctor_of(caller_self))",
+             "lhs_func == genf_of(get_function, caller_self.comb_class)",
+             "len(rhs_funcs) == len(children_of(caller_self))",
+             "forall(lambda i: implies(0 <= i and i < len(rhs_funcs), rhs_funcs[i] == genf_of(get_function, children_of(caller_self)[i])))"]},
+         modifies=["self._constructor", "self._children"],
+         notes="the equation relates the generating function of the rule's class to those of its children, in order")
